@@ -17,7 +17,7 @@ CHECKS = {
    "Trusted: the raw-key model and the statement's encoding rule; MockStorage as root. Bounds: <= 5 views, <= 3 segments per path, <= 150 ops."),
 }
 
-CHAIN_NOTE = "Trusted: the hand-written reference model sim/src/model/chain.rs (bank ledger, registry, per-contract KV, lite staking, wasmd dispatch rules of DESIGN.md Appendix A); SimStorage as root store; scripted contracts and recording module shims (stubs). Fresh addresses and checksums are learned from the real run and checked for freshness/stability. Bounds: trees <= 12 nodes / depth <= 4 (thorough 30 / 6), histories <= 30 ops (thorough 70), <= 6 accounts, <= 4 denominations, amounts <= 10^6."
+CHAIN_NOTE = "Trusted: the hand-written reference model sim/src/model/chain.rs (bank ledger, registry, per-contract KV, lite staking, wasmd dispatch rules of DESIGN.md Appendix A); SimStorage as root store; scripted contracts and recording module shims (stubs). Fresh addresses and checksums are learned from the real run and checked for freshness/stability. Bounds: trees <= 12 nodes / depth <= 4 (thorough 30 / 6), histories <= 30 ops (thorough 70), <= 8 accounts (optionally two with plain, non-bech32 names), <= 4 denominations (plus up to 130 minted to one account), amounts <= 10^6 except one mint of 2^127 per non-bonded denomination, contract addresses from the default generator or an adversarial one (case twins, successor strings, duplicates, 200-byte canonical addresses)."
 def chain(text):
     return ("chainsim", True, "DESIGN.md §3", text + " The whole chain runs real code (App, Router, WasmKeeper, BankKeeper, StakeKeeper, transactional overlay, ContractWrapper) under a seeded operation schedule with injected faults; every step is refined against the reference model. Seeded sampling: evidence, not proof.", CHAIN_NOTE)
 CHECKS.update({
@@ -32,9 +32,9 @@ CHECKS.update({
  "C11": chain("Histories of store_code / store_code_with_id (gaps, 0, duplicates) / duplicate_code followed by instantiate and instantiate2 of every id (nested, failing, rolled back, salts reused, shared checksums); returned ids, usability, address freshness, duplicate rejection without effect, recorded contract data and the salted address being a function of (checksum, creator, salt) across rolled-back and repeated instantiations are checked against the model."),
  "C12": chain("Admins, former admins, strangers and contracts (via sub-message) race for Migrate / UpdateAdmin / ClearAdmin on contracts with and without admin; outcome, registry, storage and the code tag serving every later invocation are compared with the model."),
  "C13": chain("Strings from an adversarial pool (whitespace, NBSP, zero-width space, underscores in any position, 0-2 byte boundaries, unicode) are placed on attributes, event attributes and event types at every entry point and depth; the call must fail exactly when the model predicate says so, with the rollback of any other error, and accepted strings must surface unchanged."),
- "C17": chain("Recording module shims are plugged into every router seam through the real AppBuilder; behind each recorder answers either a stub with a per-run accept/fail plan or the repository's own AcceptingModule / FailingModule / StargateAccepting / StargateFailing / CachingCustomHandler (whose recorded state is compared with the recorder's); messages and queries of every kind originate at top level, from contracts typed for the chain's custom message and from Empty-typed contracts lifted by ContractWrapper; the module-call trace (kind, sender, payload, exactly once) and the caller-visible outcome are compared with the model."),
+ "C17": chain("Recording module shims are plugged into every router seam through the real AppBuilder; behind each recorder answers either a stub with a per-run accept/fail plan or the repository's own AcceptingModule / FailingModule / StargateAccepting / StargateFailing / CachingCustomHandler (whose recorded state is compared with the recorder's); messages and queries of every kind originate at top level, from contracts typed for the chain's custom message and from Empty-typed contracts lifted by ContractWrapper; the module-call trace (kind, sender, payload, exactly once; bank queries included) and the caller-visible outcome are compared with the model."),
 })
-STAKE_NOTE = "Trusted: the exact integer model in sim/src/engines/stakesim.rs; shown values are read through public queries (and StakeKeeper::get_rewards when the delegation query hides a sub-token delegation). Bounds: 2-5 delegators x 2-4 validators, <= 120 steps, <= 10 simulated years, amounts <= 10^9, <= 5 slashes per validator with <= 3 decimals (keeps stakes exact multiples of 10^-15 token), tolerance 10^-9 token on reward bounds."
+STAKE_NOTE = "Trusted: the exact integer model in sim/src/engines/stakesim.rs; shown values are read through public queries (and StakeKeeper::get_rewards when the delegation query hides a sub-token delegation). Bounds: 2-5 delegators x 2-4 validators (one run in six 6-12 x 4-9), three bonded denominations, bech32 or plain mixed-case validator names, optionally a second application with other staking parameters alive in the same thread, <= 160 steps, <= 10 simulated years, amounts <= 10^9, <= 5 slashes per validator with <= 3 decimals (keeps stakes exact multiples of 10^-15 token), tolerance 10^-9 token on reward bounds."
 def stake(text):
     return ("stakesim", True, "DESIGN.md §5", text + " Discrete-event simulation: the simulator owns the block clock and jumps to unbonding maturities, one second before/after them, past several at once, by zero, or by random spans sliced into several block updates. Seeded sampling: evidence, not proof.", STAKE_NOTE)
 CHECKS.update({
@@ -43,7 +43,7 @@ CHECKS.update({
  "C16": stake("At every slash all pairs, balances and pending rewards are snapshotted before and after: floor(shown x remaining) <= new <= min(shown, floor(exact stake x remaining)), p = 1 removes everything, other validators / balances / accrued rewards unchanged, pending unbondings scaled (verified by the later payout), invalid slashes rejected without effect."),
 })
 CHECKS["C19"] = ("twinsim", True, "DESIGN.md §6 (C19)",
-  "The same explicit chainsim / stakesim operation list is executed on independent instances: sequentially, interleaved step by step by the seeded scheduler, with a differently configured noise instance in between, with the twin created late, and (one run in five) in two fresh child processes that differ only in whether the noise instance ran first. Per-step digests of everything observable and the final root store bytes must be equal. Seeded sampling: evidence, not proof.",
+  "The same explicit chainsim / stakesim operation list is executed on independent instances: sequentially, interleaved step by step by the seeded scheduler, with a differently configured noise instance in between, with the twin created late, with another instance created right after the one under test, and (one run in five) in two fresh child processes that differ only in whether the noise instance ran first. Per-step digests of everything observable and the final root store bytes must be equal. Seeded sampling: evidence, not proof.",
   "Trusted: digest collisions are ignored (64-bit FNV). A dependence on wall-clock time coarser than a run would not show (the crate never reads a clock; there is no seam to own).")
 CHECKS["C20"] = ("buildsim", True, "DESIGN.md §6 (C20)",
   "A seeded schedule (subset, order, repeats) of builder steps is applied to one object: ContractWrapper with tagged handlers (all 7 with_* steps, Empty and custom chain message type, both base constructors), AppBuilder with default-typed components carrying distinguishable values (all 11 steps, run-time order), and AppBuilder with recording components in 8 compiled orders with with_block / with_api / with_storage inserted at seeded positions. The built object must hold the last supplied value per slot, init must run once against the supplied storage/api, and the probe transcript must equal the canonical order's. The schedule of order-sensitive steps is the only thing varied (no faults, no clock).",
